@@ -169,11 +169,13 @@ def npLinspaceOpen (a b : R) (num i : Nat) : R :=
 /-- `torch.hamming_window(P, periodic=False, alpha, beta)[n] = alpha - beta*cos(n * (2π/(P-1)))`
 (hann: alpha = beta = 1/2) -/
 def torchCosWindow (α β : R) (P n : Nat) : R :=
+  if P = 1 then Num.one else           -- `if window_length == 1: return ones(1)`
   α - β * Num.cos (Num.ofNat n * (Num.pi * Num.two / Num.ofNat (P - 1)))
 
 /-- `np.hamming(M)[j] = 0.54 + 0.46*cos(pi*n/(M-1))`, `n = arange(1-M, M, 2)[j]`
 (`np.hanning`: 0.5, 0.5) -/
 def npCosWindow (α β : R) (M j : Nat) : R :=
+  if M = 1 then Num.one else           -- `if M == 1: return ones(1)`
   α + β * Num.cos (Num.pi * Num.ofInt (1 - (M : Int) + 2 * j) / Num.ofNat (M - 1))
 
 /-- `sin(omega)/omega`, `omega = pi * fftfreq(size)[k]` for `k ≥ 1`; bin 0 is left alone -/
